@@ -164,6 +164,15 @@ def run(rep, tier, seed):
         for text in (base, base + ' or x', 'x or ' + base, 'x and (' + base + ') or x', ' '.join(ws[1:]) + ' or x'):
             cases.append((T, text, False))
             rep.count('chain_texts')
+    # words with characters outside the license-key alphabet: no tokenizer may drop or shorten them (the text is then
+    # refused, or every word is accounted for)
+    odd = ['mit@', '"mit"', 'bsd;', '/', '~bsd', 'gpl*', 'a,b', "it's", 'x=y', 'mit!', '#1', 'é́x', '[mit]', 'gpl&co', '%', 'a|b']
+    Todd = [('mit', [], False), ('bsd', [], False), ('gpl', ['gnu gpl'], False)]
+    for w in odd:
+        for tmpl in ('%s', '%s or bsd', 'mit or %s', 'mit or bsd %s', '(%s) and gpl', 'gnu gpl with %s', 'mit %s or bsd'):
+            for simple in (False, True):
+                cases.append((Todd, tmpl % w, simple))
+                rep.count('odd_character_texts')
     # regression inputs of the repaired defects
     cases += [([('GNU GPL', [], False), ('GPL 2.0', [], False)], 'GNU GPL 2.0 or mit', False),
               ([('GPL 2.0', [], False), ('mit', [], False)], 'mit or gpl    2.0', False),
